@@ -30,14 +30,14 @@ DECIDING = ["unfold_shape", "unfold_fibres", "fold_unfold_exact", "unfold_fold_e
 
 def cases(tier, seed):
     out = []
-    md = 4 if tier == "quick" else 6
+    md = 4 if tier == "quick" else 10
     for I, J, K in itertools.product(range(1, md + 1), repeat=3):
         out.append({"kind": "ids", "cls": "unique_id", "shape": [I, J, K]})
-    for rep in range(10 if tier == "quick" else 60):
+    for rep in range(10 if tier == "quick" else 600):
         out.append({"kind": "gauss", "cls": "gauss_tensor", "idx": rep, "seed": seed})
-    for rep in range(12 if tier == "quick" else 80):
+    for rep in range(12 if tier == "quick" else 600):
         out.append({"kind": "image", "cls": "image", "idx": rep, "seed": seed})
-    for rep in range(8 if tier == "quick" else 40):
+    for rep in range(8 if tier == "quick" else 400):
         out.append({"kind": "metrics", "cls": "metrics", "idx": rep, "seed": seed})
     nd = 200 if tier == "quick" else 2000
     for rep in range(4 if tier == "quick" else 8):
